@@ -54,7 +54,9 @@ def currentCfg : Cfg :=
       [C09.seqGenNamespaceSeqCalls, C09.seqGenMetricNameSeqCalls, C09.seqGenTagKeySeqCalls, C09.seqGenTagValueSeqCalls]
     seriesLimitFirst := seriesLimitFirstOf C09.indexGenSeriesCalls
     schemaMarkWritten := C09.schemaFlushCalls.contains "λ:value.MarkPersistedPrefix" &&
-      !C09.schemaFlushCalls.contains "λ:value.MarkPersisted" }
+      !C09.schemaFlushCalls.contains "λ:value.MarkPersisted"
+    prepareSwapsEmpty := [C09.kvPrepareFlushCalls, C09.schemaPrepareFlushCalls, C09.invertedPrepareFlushCalls,
+      C09.forwardPrepareFlushCalls].all (·.contains "immutable.IsEmpty") }
 
 /-- default limits as the source has them now -/
 def currentLimits : Limits :=
